@@ -548,6 +548,7 @@ func (g *GenState) genOpenOpts(cfg ref.IndexCfg, everNonDec bool) OpenOpts {
 	o.NewVer = pick(r, p.Versions)
 	o.KeepVer = r.Chance(p.PKeep)
 	o.Eager = r.Chance(p.PEager)
+	o.Typed = r.Chance(0.2)
 	return o
 }
 
